@@ -1,7 +1,9 @@
 package main
 
 import (
+	"encoding/binary"
 	"fmt"
+	"hash/crc32"
 	"math/rand"
 	"runtime"
 	"strconv"
@@ -189,6 +191,30 @@ func checkC18(a *checkArgs, r *Result) error {
 		}
 	}
 	r.Add("block_headers", 400)
+
+	// 5. the block-header parser accepts exactly the codes 0..40 with the format's sizes
+	tmpl, ok := xz.VerifBlockHeader(-1, -1, 4096)
+	if !ok || len(tmpl) != 12 {
+		return fmt.Errorf("cannot marshal a block header template")
+	}
+	for b := 0; b < 256; b++ {
+		h := append([]byte{}, tmpl...)
+		h[4] = byte(b)
+		binary.LittleEndian.PutUint32(h[8:], crc32.ChecksumIEEE(h[:8]))
+		_, _, dc, ok := xz.VerifParseBlockHeader(h)
+		r.Count(fmt.Sprintf("bhparse%d", b), b > 0)
+		switch {
+		case b <= 40 && (!ok || dc != sizes[b]):
+			r.Violate("counterexample", fmt.Sprintf("blockheader-parse byte %d", b),
+				map[string]interface{}{"op": "blockheader-parse", "byte": b, "header": hx(h), "accepted": ok, "declared": dc},
+				"the block header parser rejects or mis-decodes a valid dictionary size code")
+		case b > 40 && ok:
+			r.Violate("counterexample", fmt.Sprintf("blockheader-parse byte %d", b),
+				map[string]interface{}{"op": "blockheader-parse", "byte": b, "header": hx(h), "accepted": ok, "declared": dc},
+				"the block header parser accepts a dictionary size byte outside 0..40")
+		}
+	}
+	r.Add("block_header_dict_bytes_parsed", 256)
 	r.Extra["driver_requests"] = d.N
 	return nil
 }
